@@ -174,6 +174,45 @@ fn gen_c15(r: &mut Rng, idx: u64) -> Sc {
     Sc { kind: "c15".into(), base: Base::Gen { spec: gen_img(r, &[], 8) }, muts: vec![], argv: vec![], envp: vec![], stack_len: 0, blockers: vec![], grown_blockers: false, code_low: false }
 }
 
+/// C10, ELF part (also sampled by C16): a generated image in which one PT_LOAD header's address is
+/// moved relative to another segment - into it, onto its start, just behind its file bytes, into its
+/// last page - so that two segments' page-rounded extents intersect
+fn gen_relational(r: &mut Rng, kind: &str) -> Sc {
+    let spec = loop {
+        let s = gen_img(r, &[], 6);
+        if s.segs.len() >= 2 {
+            break s;
+        }
+    };
+    let i = r.usize(spec.segs.len());
+    let j = loop {
+        let j = r.usize(spec.segs.len());
+        if j != i {
+            break j;
+        }
+    };
+    let a = &spec.segs[i];
+    let delta: u64 = match r.below(8) {
+        0 => 0,
+        1 => 0x10,
+        2 => 0x800,
+        3 => a.memsz.saturating_sub(1),
+        4 => a.memsz,
+        5 => a.memsz / 2,
+        6 => ((a.vaddr + a.memsz + 0xfff) & !0xfff).wrapping_sub(a.vaddr).wrapping_sub(r.range(1, 0xfff)),
+        _ => 0u64.wrapping_sub(r.range(1, spec.segs[j].memsz.max(2))),
+    };
+    let value = a.vaddr.wrapping_add(delta);
+    let pos = spec.ph_order.iter().position(|x| *x == j).unwrap_or(0) as u64;
+    let mut muts = vec![Mutation::Field { table: "p".into(), idx: pos, field: "p_vaddr".into(), value }];
+    if r.chance(1, 4) {
+        // and a size that reaches over the next segment
+        let pos_i = spec.ph_order.iter().position(|x| *x == i).unwrap_or(0) as u64;
+        muts.push(Mutation::Field { table: "p".into(), idx: pos_i, field: "p_memsz".into(), value: a.memsz + r.range(1, 0x4000) });
+    }
+    Sc { kind: kind.into(), base: Base::Gen { spec }, muts, argv: vec![], envp: vec![], stack_len: 0, blockers: vec![], grown_blockers: false, code_low: false }
+}
+
 fn strings(r: &mut Rng, n: u64, long_ok: bool) -> Vec<String> {
     let v = strings_distinct(r, n, long_ok);
     // now and then the same text again (`prog -v -v`, two identical environment entries)
@@ -587,7 +626,26 @@ fn run_c16(sc: &Sc, ctx: &mut Ctx) {
     let desc = mut_desc(sc, base_len);
     install_ax_rng(7);
     crate::ALLOC_MAX_SEEN.store(0, std::sync::atomic::Ordering::Relaxed);
-    let r = catch(|| Axecutor::from_binary(&bytes).map(|a| a.verif_area_count()));
+    let r = catch(|| {
+        Axecutor::from_binary(&bytes).map(|a| {
+            // C10: whatever was loaded, no two areas of the machine intersect
+            let ext = a.verif_area_extents();
+            let mut clash: Option<((u64, u64), (u64, u64))> = None;
+            'o: for i in 0..ext.len() {
+                for j in i + 1..ext.len() {
+                    if intersects(ext[i].0, ext[i].1, ext[j].0, ext[j].1) {
+                        clash = Some(((ext[i].0, ext[i].1), (ext[j].0, ext[j].1)));
+                        break 'o;
+                    }
+                }
+            }
+            (a.verif_area_count(), clash)
+        })
+    });
+    if let Ok(Ok((_, Some((x, y))))) = &r {
+        ctx.dev("C10", "C10|elf_load|areas_overlap".into(), format!("from_binary succeeded and left the areas [{:#x},+{:#x}) and [{:#x},+{:#x}) intersecting", x.0, x.1, y.0, y.1));
+    }
+    let r = r.map(|x| x.map(|y| y.0));
     ctx.nontrivial = applied > 0;
     let oc = match &r {
         Ok(Ok(_)) => "ok".to_string(),
@@ -933,8 +991,55 @@ fn run_c09_elf(sc: &Sc, ctx: &mut Ctx) {
     ctx.log_u64(observe(&ax).digest());
 }
 
+/// C20, process start: the same image, argv and envp on two machines whose constructors (and whatever
+/// else asks the RNG seam) drew different random values; everything the guest can address afterwards -
+/// area extents, rights and bytes, RSP, FS and GS - must be the same
+fn run_c20_start(sc: &Sc, ctx: &mut Ctx) {
+    let (bytes, _) = image_bytes(sc);
+    ctx.nontrivial = true;
+    let mut snaps: Vec<Option<(Vec<(u64, u64, u32, Vec<u8>)>, u64, u64, u64, String)>> = Vec::new();
+    for seed in [0x1111_2222u64, 0x9999_aaaa_bbbb] {
+        install_ax_rng(seed);
+        ax_x86::verif::set_fuel(Some(crate::sup::DEFAULT_FUEL));
+        let r = catch(|| -> Result<_, String> {
+            let mut ax = Axecutor::from_binary(&bytes).map_err(|e| e.to_string().lines().next().unwrap_or("").to_string())?;
+            let res = ax.init_stack_program_start(sc.stack_len, sc.argv.clone(), sc.envp.clone()).map(|_| ()).map_err(|e| e.to_string().lines().next().unwrap_or("").to_string());
+            let mut areas: Vec<(u64, u64, u32, Vec<u8>)> = ax.verif_areas().into_iter().map(|a| (a.start, a.length, a.access, a.data)).collect();
+            areas.sort();
+            Ok((areas, ax.reg_read_64(SR::RSP).unwrap_or(0), ax.read_fs(), ax.read_gs(), format!("{res:?}")))
+        });
+        match r {
+            Ok(Ok(s)) => snaps.push(Some(s)),
+            Ok(Err(_)) => snaps.push(None),
+            Err(p) => {
+                ctx.event("start:panic", "");
+                ctx.probe("c20_start_panicked");
+                let _ = p;
+                snaps.push(None);
+            }
+        }
+    }
+    ctx.event(&format!("start:{}", if snaps[0].is_some() { "loaded" } else { "rejected" }), "");
+    match (&snaps[0], &snaps[1]) {
+        (Some(a), Some(b)) => {
+            if a.4 != b.4 {
+                ctx.dev("C20", "C20|start|result".into(), format!("init_stack_program_start: {} vs {}", a.4, b.4));
+            } else if a.1 != b.1 || a.2 != b.2 || a.3 != b.3 {
+                ctx.dev("C20", "C20|start|registers".into(), format!("RSP/FS/GS differ: {:#x}/{:#x}/{:#x} vs {:#x}/{:#x}/{:#x}", a.1, a.2, a.3, b.1, b.2, b.3));
+            } else if a.0.iter().map(|x| (x.0, x.1, x.2)).ne(b.0.iter().map(|x| (x.0, x.1, x.2))) {
+                ctx.dev("C20", "C20|start|layout".into(), "the two machines have different areas after process start".into());
+            } else if let Some((x, _)) = a.0.iter().zip(b.0.iter()).find(|(x, y)| x.3 != y.3) {
+                ctx.dev("C20", "C20|start|memory".into(), format!("the bytes of the area at {:#x} (+{:#x}) differ between the two machines after process start", x.0, x.1));
+            }
+        }
+        (None, None) => {}
+        _ => ctx.dev("C20", "C20|start|loaded_vs_rejected".into(), "one machine loaded the image, the other did not".into()),
+    }
+}
+
 pub fn run(_prop: &str, sc: &Sc, ctx: &mut Ctx) {
     match sc.kind.as_str() {
+        "c20start" => run_c20_start(sc, ctx),
         "c09elf" => run_c09_elf(sc, ctx),
         "c15" => run_c15(sc, ctx),
         "c16" => run_c16(sc, ctx),
@@ -962,6 +1067,20 @@ impl Engine for E4Engine {
                     15_000
                 }
             }
+            "C10" => {
+                if thorough {
+                    400_000
+                } else {
+                    20_000
+                }
+            }
+            "C20" => {
+                if thorough {
+                    60_000
+                } else {
+                    3_000
+                }
+            }
             "C16" => enumerated().len() as u64 + if thorough { 6_000_000 } else { 400_000 },
             _ => {
                 if thorough {
@@ -981,6 +1100,15 @@ impl Engine for E4Engine {
                 sc.kind = "c09elf".into();
                 sc
             }
+            "C10" => gen_relational(&mut r, "c16"),
+            "C20" => {
+                let mut sc = gen_c17(&mut r, thorough);
+                sc.kind = "c20start".into();
+                sc.blockers.clear();
+                sc.base = if idx % 2 == 0 { Base::Bundled { name: BUNDLED[(idx / 2) as usize % BUNDLED.len()].0.to_string() } } else { Base::Gen { spec: gen_img(&mut r, &[], 4) } };
+                sc
+            }
+            "C16" if idx >= enumerated().len() as u64 && idx % 16 == 5 => gen_relational(&mut r, "c16"),
             "C16" => gen_c16(&mut r, idx),
             _ => gen_c17(&mut r, thorough),
         };
@@ -1117,6 +1245,8 @@ impl Engine for E4Engine {
     fn rule(&self, prop: &str) -> String {
         match prop {
             "C15" => "fault-free configuration of the storage-fault simulation: generated ELF64 ET_EXEC images (1-8 PT_LOAD segments on distinct pages, aligned and unaligned vaddr, bss tails, exact page multiples, every flag combination, benign non-load headers, optional symbol table with named/unnamed/duplicate/undefined symbols, shuffled header and file order) plus the 8 bundled binaries; image model checked through the area view; distinct = distinct hash of (outcome, segment shape sequence)".into(),
+            "C20" => "process start on two machines: the bundled binaries (one with PT_TLS) and generated images loaded with the same argv/envp/stack size while the RNG seam serves different streams; areas (extents, rights, bytes), RSP, FS and GS compared".into(),
+            "C10" => "ELF load as a creation path: generated images in which one PT_LOAD header's address is moved relative to another segment (into it, onto its start, behind its file bytes, into its last page; sometimes with a size reaching over the next segment); whenever from_binary succeeds no two areas of the machine may intersect".into(),
             "C09" => "loaded images: for every PT_LOAD segment of generated and bundled well-formed images (every flag combination, exact page multiples, bss tails) each access path the flags deny - API read/write, guest load/store/read-modify-write from a host-added helper area, instruction fetch - at the first, last, middle and a sampled byte must fail and leave all memory unchanged".into(),
             "C16" => format!("{} enumerated storage faults on the 8 bundled images (every truncation offset of the headers plus a stride through the rest; every ELF-header, program-header, section-header and symbol field set to each of ~17 boundary values and every defined p_type) in every run independent of the seed, then sampled single/double/triple mutations (fields, bit flips, bursts, splices, truncations) of bundled and generated images and random byte strings; oracle: from_binary returns Ok or Err - no panic, abort, signal, hang, or allocation request above 256 MiB; distinct = distinct hash of (fault kind, field, value class, outcome)", enumerated().len()),
             _ => "argv/envp lists (empty to 64 entries quick / 4096 thorough, empty/1-byte/64 KiB/non-ASCII strings), stack sizes 0 to 1 MiB including sizes smaller than the frame, machines from new() and from generated images, adversarial pre-existing areas at the placement loops' first probes; the frame is observed by a guest program of POP+SYSCALL pairs through a hook; distinct = distinct hash of (outcome, frame shape)".into(),
